@@ -127,8 +127,10 @@ def check(ctx):
         ctx.evaluations += 1
         scen = re.search(r'scen=(\S+)', c).group(1)
         sched.setdefault(scen, []).append(v)
-        want = {'uu': ('uu', KF_UU), 'uuasync': ('uu', KF_UU), 'lost': ('micro', KF_LOST)}[scen]
-        if v == 'ok':
+        want = {'uu': ('uu', KF_UU), 'uuasync': ('uu', KF_UU), 'lost': ('micro', KF_LOST), 'midunsub': ('ok', None)}[scen]
+        if v == 'ok' and scen == 'midunsub':
+            ctx.traces_validated += 1     # a Subscribe during an in-flight Unsubscribe: either order of the two calls explains the history
+        elif v == 'ok':
             ctx.notes.append(f'scripted schedule {scen} is now linearizable: {c}')
         elif v == want[0] and want[1] in reproduced:
             ctx.traces_validated += 1
